@@ -2,5 +2,6 @@ CONSTANTS
   Slots = {1, 2}
   Notifiers = {1, 2}
   Shape = "one"
+  Cancels = {1, 2}
   Variant = "no_identity"
 INVARIANTS TypeOK NoPanic OkOnlyIfNotified DeregOnlyIfDeregistered MustWake CountOK Cleanup
